@@ -1367,3 +1367,177 @@ def gen_jitarms(src_dir):
         chain = 'if sel_ =? %s then gen_jit_jmp_%s insn dst src else\n  %s' % (n, n, chain)
     out.append("Definition gen_jit_jmp (sel_ : Z) (insn : insn) (dst src : Z) : xi * Z :=\n  %s.\n" % chain)
     return ''.join(out)
+
+
+# ------------------------------------------------------------------ src/cranelift.rs: byte swaps, wide loads, helper calls
+
+class EndPE(MemPE):
+    def __init__(self, toks, consts, opc, imm):
+        MemPE.__init__(self, toks, consts, opc)
+        self.imm = imm
+
+    def ceval(self, e):
+        while e[0] == 'paren':
+            e = e[1]
+        if e[0] == 'field' and show(e) == 'insn.imm':
+            return self.imm
+        if e[0] == 'bin' and e[1] in ('==', '!=') and 'endianness' in show(e[2]):
+            is_little = show(e[3]).endswith('Little')
+            return is_little if e[1] == '==' else not is_little       # x86-64 host: little-endian
+        if e[0] == 'bin' and e[1] in ('==', '!='):
+            a, b = self.ceval(e[2]), self.ceval(e[3])
+            return (a == b) if e[1] == '==' else (a != b)
+        return MemPE.ceval(self, e)
+
+    def pmatch(self, pat, v):
+        if pat[0] == 'pnum':
+            return v == pat[1]
+        return MemPE.pmatch(self, pat, v)
+
+    def run_end(self, sts):
+        """-> term of type option Z (new value of the destination register)"""
+        for st in sts:
+            if st[0] == 'let' and st[1][0] == 'ppath':
+                name, e = st[1][1], st[3]
+                try:
+                    v = self.ceval(e)
+                    if isinstance(v, tuple) and v[0] == 'body':
+                        self.cenv[name] = self.ceval(v[1])
+                    else:
+                        self.cenv[name] = v
+                    continue
+                except Unsupported:
+                    pass
+                t, w = self.value(e)
+                self.env[name] = (t, w)
+                continue
+            if st[0] in ('stmt', 'tail'):
+                e = st[1]
+                if e[0] == 'if':
+                    c = self.ceval(e[1])
+                    if c:
+                        return self.run_end(list(e[2][1]))
+                    if e[3] is None:
+                        return 'None'
+                    b = e[3]
+                    if b[0] == 'if':
+                        return self.run_end([('stmt', b, 0, [])])
+                    return self.run_end(list(b[1]))
+                if e[0] == 'mcall' and show(e[1]) == 'self' and e[2].startswith('set_dst'):
+                    t, w = self.set_dst(e[2], e[3])
+                    if w != 64:
+                        raise Unsupported("destination defined with %d bits" % w)
+                    return 'Some %s' % t
+            raise Unsupported("byte-swap arm: statement")
+        return 'None'
+
+    def value(self, e):
+        while e[0] == 'paren':
+            e = e[1]
+        if e[0] == 'mcall' and e[1][0] == 'mcall' and e[1][2] == 'ins' and e[2] in ('ireduce', 'uextend') and show(e[3][0]) in self.cenv:
+            w = self.cenv[show(e[3][0])][1]
+            a, wa = self.value(e[3][1])
+            return '(ir_%s %d %d %s)' % (e[2], wa, w, a), w
+        return MemPE.value(self, e)
+
+
+def gen_clmisc(src_dir):
+    from rsemit import Emitter
+    env, _ = U.read_consts(src_dir)
+    toks = U.load(src_dir, 'cranelift.rs')
+    out = [U.HDR % 'src/cranelift.rs (translate_program: byte swaps per width, the wide load, the helper call)',
+           "From RbpfV Require Import Ebpf ClirSem.\nFrom RbpfV.gen Require Import Opcodes.\n\n"]
+    _, fbody = R.parse_fn(toks, 'translate_program')
+    arms = []
+
+    def walk(e):
+        if isinstance(e, tuple) and e and e[0] == 'match' and show(e[1]) == 'insn.opc' and len(e[2]) > 50:
+            arms.extend(e[2])
+            return
+        if isinstance(e, (tuple, list)):
+            for x in e:
+                walk(x)
+    walk(fbody)
+    done = set()
+    for pat, guard, body, ln, attrs in arms:
+        alts = pat[1] if pat[0] == 'por' else [pat]
+        names = [a[1].split('::')[-1] for a in alts if a[0] == 'ppath']
+        if set(names) == {'LE', 'BE'}:
+            for n in ('LE', 'BE'):
+                for w in (16, 32, 64):
+                    pe = EndPE(toks, env, env[n][1], w)
+                    term = pe.run_end(list(body[1]))
+                    out.append("Definition gen_cl_%s%d (rdst rsrc : Z) : option Z :=\n  %s.\n\n" % (n.lower(), w, term))
+            done.add('end')
+        if names == ['LD_DW_IMM']:
+            # let imm = <scalar>; let iconst = bcx.ins().iconst(I64, imm); self.set_dst(.., iconst)
+            sts = list(body[1])
+            imm_let = [st for st in sts if st[0] == 'let' and st[1][0] == 'ppath' and st[1][1] == 'imm']
+            ic = [st for st in sts if st[0] == 'let' and show(st[3]).replace(' ', '').startswith('bcx.ins().iconst(I64,imm)')]
+            sd = [st for st in sts if st[0] in ('stmt', 'tail') and st[1][0] == 'mcall' and st[1][2] == 'set_dst']
+            if len(imm_let) != 1 or len(ic) != 1 or len(sd) != 1 or show(sd[0][1][3][2]) != ic[0][1][1]:
+                raise Unsupported("LD_DW_IMM arm shape")
+            em = Emitter(env, {'insn.imm': ('lo', 'I32'), 'next_insn.imm': ('hi', 'I32')})
+            t, ty = em.expr(imm_let[0][3])
+            if ty != 'I64':
+                raise Unsupported("LD_DW_IMM: immediate type %s" % ty)
+            out.append("Definition gen_cl_lddw (lo hi : Z) : res Z :=\n  %s.\n\n" % Emitter.wrap_binds(em.take_binds(), 'Ok (ir_iconst 64 %s)' % t))
+            done.add('lddw')
+        if names == ['CALL']:
+            sts = list(body[1])
+            first = sts[0]
+
+            def find(e, pred):
+                if isinstance(e, tuple) and e and pred(e):
+                    return e
+                if isinstance(e, (tuple, list)):
+                    for x in e:
+                        r = find(x, pred)
+                        if r is not None:
+                            return r
+                return None
+            guard_ok = (first[0] == 'stmt' and first[1][0] == 'if' and show(first[1][1]).replace(' ', '').strip('()') == 'insn.src!=0'
+                        and first[1][3] is None
+                        and find(first[1][2], lambda n: n[0] == 'return' and isinstance(n[1], tuple) and n[1][0] == 'call' and show(n[1][1]) == 'Err') is not None)
+            key = None
+            args = []
+            ret = None
+            for st in sts[1:]:
+                txt = show(st[3] if st[0] == 'let' else st[1]).replace(' ', '')
+                if st[0] == 'let':
+                    g = find(st[3], lambda n: n[0] == 'mcall' and n[2] == 'get' and show(n[1]).replace(' ', '') == 'self.helper_func_refs')
+                    if g is not None and st[3][0] == 'try' and len(g[3]) == 1:
+                        key = show(g[3][0]).replace(' ', '')
+                if st[0] == 'let' and txt.startswith('bcx.use_var(self.registers['):
+                    args.append((st[1][1], txt[len('bcx.use_var(self.registers['):-2]))
+                if st[0] == 'let' and txt.startswith('bcx.ins().call(func_ref,'):
+                    arr = st[3][3][1]
+                    while arr[0] in ('ref', 'paren'):
+                        arr = arr[1]
+                    if arr[0] != 'array':
+                        raise Unsupported("CALL arm: argument list")
+                    order = [show(x) for x in arr[1]]
+                    regs = dict(args)
+                    args = [regs[a] for a in order]
+                    callv = st[1][1]
+                if st[0] == 'let' and txt.startswith('bcx.inst_results('):
+                    if txt != 'bcx.inst_results(%s)[0]' % callv:
+                        raise Unsupported("CALL arm: result %s" % txt)
+                    retv = st[1][1]
+                if st[0] in ('stmt', 'tail') and txt.startswith('bcx.def_var(self.registers['):
+                    ret = txt[len('bcx.def_var(self.registers['):txt.index(']')]
+                    if txt != 'bcx.def_var(self.registers[%s],%s)' % (ret, retv):
+                        raise Unsupported("CALL arm: def_var %s" % txt)
+            if not guard_ok or key is None or ret is None:
+                raise Unsupported("CALL arm shape")
+            key = key.replace('&', '').replace('(', '').replace(')', '')
+            if key != 'insn.immasu32':
+                raise Unsupported("CALL arm: helper key %s" % key)
+            out.append("(* a call with src <> 0 is refused; otherwise the helper registered under (imm as u32) is called on these registers *)\n"
+                       "Definition gen_cl_call_refuses_local : bool := true.\n"
+                       "Definition gen_cl_call_key (insn : insn) : Z := cast U32 (imm insn).\n"
+                       "Definition gen_cl_call_args : list Z := [%s].\nDefinition gen_cl_call_result : Z := %s.\n\n" % ('; '.join(args), ret))
+            done.add('call')
+    if done != {'end', 'lddw', 'call'}:
+        raise Unsupported("arms found: %s" % sorted(done))
+    return ''.join(out)
